@@ -47,7 +47,7 @@ def model(fam, adds, post, fix, invariants, *, timeout=900, workers=4, br=1, aft
                     timeout=timeout, heap="6g")
 
 
-def gen(fam, adds, post, *, simulate=None, depth=None, seed=None, timeout=900, workers=4, br=1, aftererr=1, fix=None):
+def gen(fam, adds, post, *, simulate=None, depth=None, seed=None, timeout=900, workers=4, br=1, aftererr=1, fix=None, limit=None):
     """Enumerate (or sample with -simulate) the maximal call sequences of one family; predictions = the model as coded."""
     name = "gen_%s_%d_%d.cfg" % (fam, adds, post)
     run = vlib.tlc("EinoBuild", name, files={name: cfg_text(consts(fam, adds, post, fix or AS_CODED, br, aftererr), ["Emit"])},
@@ -128,9 +128,28 @@ def classify(case, reason, detail, obs):
                 return "compile-panics-on-unconnected-passthrough"
         return "call-panicked(%s)" % ops[j]["op"]
     if reason in ("run-panic", "accepted-concrete-mismatch", "wrong-type-delivered-to-branch", "wrong-type-delivered-to-node"):
+        # D5: a branch is added to a pass-through node that an earlier call connected to something of another declared type
+        decl_out = {"start": case["gi"]}
+        decl_in = {"end": case["go"]}
+        for j in ok:
+            if ops[j]["op"] == "node":
+                decl_out[ops[j]["k"]], decl_in[ops[j]["k"]] = ops[j]["o"], ops[j]["i"]
         for j in ok:
             o = ops[j]
-            if o["op"] == "branch" and o["a"] in passk and any(_incident(ops[i], o["a"]) for i in ok if i < j):
+            if o["op"] != "branch" or o["a"] not in passk:
+                continue
+            around = set()
+            for i in ok:
+                if i >= j:
+                    break
+                e = ops[i]
+                if e["op"] == "edge" and e["b"] == o["a"]:
+                    around.add(decl_out.get(e["a"]))
+                elif e["op"] == "edge" and e["a"] == o["a"]:
+                    around.add(decl_in.get(e["b"]))
+                elif e["op"] == "branch" and o["a"] in e["ends"]:
+                    around.add(decl_out.get(e["a"]))
+            if any(t is not None and t != o["t"] for t in around):
                 return "branch-retypes-inferred-passthrough"
         return reason
     if reason == "runnable-changed-after-compile":
